@@ -172,6 +172,84 @@ fn check() {
         samples.push(json!({"nested": {"graphs": graphs.len(), "algorithms": 3, "selections_each": 6}}));
     }
 
+    // ---- several round-robin balancers in one configuration: every balancer rotates on its own, whatever the other
+    //      balancers are asked meanwhile (interleaved request streams) and also when one balancer is a member of another
+    {
+        let log: Log = Default::default();
+        let mut cs = members(5, &log);
+        let mut lbs: Vec<(String, Vec<String>, Arc<dyn Connector>)> = vec![];
+        for (name, ms) in [("lb1", vec!["m0", "m1"]), ("lb2", vec!["m2", "m3", "m4"]), ("top", vec!["lb1", "lb2"])] {
+            let yaml = format!("name: {}\ntype: loadbalance\nconnectors: [{}]\nalgo: rr", name, ms.join(", "));
+            let lb: Arc<dyn Connector> = match catch(|| lb_from_yaml(&yaml)) {
+                Ok(Ok(mut b)) => {
+                    block_on(b.init()).expect("init");
+                    Arc::from(b)
+                }
+                other => machinery(format!("cannot build balancer {name}: {:?}", other.map(|r| r.map(|_| ())))),
+            };
+            lbs.push((name.to_string(), ms.iter().map(|m| m.to_string()).collect(), lb.clone()));
+            cs.push(lb);
+        }
+        let state = make_state(cs, 0);
+        let r = req("l", "127.0.0.1:1", TargetAddress::DomainPort("t".into(), 80));
+        // leaf -> which direct balancer it belongs to
+        let owner = |leaf: &str| if leaf == "m0" || leaf == "m1" { "lb1" } else { "lb2" };
+        // request streams: which balancer is asked, step by step
+        let streams: Vec<(&str, Vec<usize>)> = vec![
+            ("alternating lb1, lb2", (0..24).map(|i| i % 2).collect()),
+            ("lb1, lb1, lb2", (0..24).map(|i| if i % 3 == 2 { 1 } else { 0 }).collect()),
+            ("lb1, lb2, lb2", (0..24).map(|i| if i % 3 == 0 { 0 } else { 1 }).collect()),
+            ("top only", vec![2; 24]),
+            ("top, lb1, top, lb2", (0..24).map(|i| [2, 0, 2, 1][i % 4]).collect()),
+        ];
+        for (sname, stream) in &streams {
+            // what each balancer handed out, in order (a selection through `top` counts for `top` and for the inner one)
+            let mut picked: std::collections::BTreeMap<String, Vec<String>> = Default::default();
+            for &which in stream {
+                selections += 1;
+                let before = log.lock().unwrap().len();
+                let entry = lbs[which].2.clone();
+                let ok = catch(|| {
+                    block_on(async {
+                        let (ctx, _) = make_request(&state, &r, b"", Default::default()).await;
+                        entry.connect(state.clone(), ctx.clone()).await.is_ok()
+                    })
+                });
+                let contacted: Vec<String> = log.lock().unwrap()[before..].iter().map(|l| l.trim_start_matches("connect:").to_string()).collect();
+                if !matches!(ok, Ok(true)) || contacted.len() != 1 {
+                    chk.violation("loadbalance.round_robin", "selection-failed:several-balancers", format!("{sname}: {:?} contacted {:?}", ok, contacted), json!({"stream": sname}));
+                    continue;
+                }
+                let leaf = contacted[0].clone();
+                let inner = owner(&leaf).to_string();
+                picked.entry(inner.clone()).or_default().push(leaf);
+                if which == 2 {
+                    picked.entry("top".into()).or_default().push(inner);
+                }
+            }
+            for (bname, ms, _) in &lbs {
+                let seq = picked.get(bname).cloned().unwrap_or_default();
+                let n = ms.len();
+                outcomes.add(&("several", *sname, bname.clone(), seq.len()));
+                for w in seq.windows(n) {
+                    let mut sorted: Vec<&String> = w.iter().collect();
+                    sorted.sort();
+                    sorted.dedup();
+                    if sorted.len() != n {
+                        chk.violation(
+                            "loadbalance.round_robin",
+                            "uneven-selection:several-balancers",
+                            format!("request stream \"{sname}\": balancer {bname} {:?} handed out {:?} - a window of {n} consecutive selections without each member once", ms, seq),
+                            json!({"stream": sname, "balancer": bname, "sequence": seq}),
+                        );
+                        break;
+                    }
+                }
+            }
+        }
+        samples.push(json!({"several_round_robin_balancers": {"balancers": ["lb1[m0,m1]", "lb2[m2,m3,m4]", "top[lb1,lb2]"], "streams": streams.iter().map(|s| s.0).collect::<Vec<_>>()}}));
+    }
+
     // ---- a hash-by balancer that requests reach by different routes (named by a rule directly, through one balancer,
     //      through two): the member depends on the key only, not on how the request got there
     {
